@@ -74,6 +74,30 @@ def expand(task):
   return statespace.expand_paths(system(task['cfg']), task['paths'])
 
 
+def large_shard(task):
+  """One long history on a study with more than a hundred trials on the three backends in lock-step (anything that pages,
+  batches or sorts by name shows only beyond 9 / 99 trials)."""
+  cfg = {'backends': ['ram', 'sqlmem', 'sqlfile'], 'model': False, 'max_trials': 400, 'max_meas': 1, 'max_ops': 4, 'max_id': 125}
+  sysm = system(cfg)
+  sysm.reset()
+  path = [('CreateStudy', 's')]
+  for i in range(1, 106):
+    path.append(('CreateTrial', 's', 'succeeded' if i % 3 else 'requested', round(0.001 * i, 6)))
+  path += [('ListTrials', 's'), ('SuggestTrials', 's', 'a', 2), ('ListOptimalTrials', 's'), ('SuggestTrials', 's', 'b', 40), ('ListTrials', 's'),
+           ('CompleteTrial', 's', 3, 'final'), ('DeleteTrial', 's', 50), ('SuggestTrials', 's', 'a', 3), ('UpdateMetadata', 's', ((None, '', 'k', 'v'), (104, '', 'k', 'v'))), ('ListTrials', 's')]
+  vios, done = [], 0
+  for a in path:
+    for v in sysm.apply(a):
+      v = dict(v)
+      v['sig'] += '|large-study'
+      v['case'] = {'large': True}
+      vios.append(v)
+    done += 1
+    if vios:
+      break
+  return {'n': done, 'violations': vios[:5]}
+
+
 def run(ctx):
   base = {'backends': ['ram', 'sqlmem', 'sqlfile'], 'model': False, 'max_trials': 2, 'max_meas': 1, 'max_ops': 2, 'max_id': 3}
   # several studies: two owners with the same study id; ids that differ by a LIKE wildcard ('_', '%') or by case only
@@ -113,11 +137,18 @@ def run(ctx):
     cov['exhaustive'] = cov['exhaustive'] and c['exhaustive']
     c['cfg'] = dict(cfg, starts=starts) if starts else cfg
     cov['runs'].append(c)
+  for r in ctx.pmap('large_shard', [{}]):
+    cov['transitions'] += r['n']
+    cov['traces_validated_against_impl'] += r['n']
+    cov['large_study_steps'] = r['n']
+    ctx.extend(r['violations'])
   cov['backends_compared'] = base['backends']
   return cov
 
 
 def replay(case, ctx):
+  if case.get('large'):
+    return large_shard({})['violations']
   sysm = system(case['cfg'])
   sysm.reset()
   for a in case['path']:
